@@ -536,6 +536,31 @@ Fixpoint tree_perms (pol : option policy) (ctx : dctx) (t : rtree) : list dperm 
       p :: flat_map (tree_perms pol ctx') ch
   end.
 
+(* RELAY ADMISSION.  What a node's own writer may do (tree_perms) is not yet what ends up in the shared
+   state: when an internal sub-query comes back NXDOMAIN, Cache.additionalAnswer of the node that chased
+   it turns its own response into that denial and hands the terminal proof's provenance on
+   (PropagateValidatedDenialResponse — whatever the flags of either node), and cache.ResponseWriter.WriteMsg
+   of THAT node then runs the same admission guard on it with ITS OWN flags (!clientScope.IsValid &&
+   !requestHasECS && !requestTreeBypassesSharedDenial && !requestCD && !res.CheckingDisabled — dp_create).
+   So a denial learnt at a node is recorded (RecordDenialProof / RecordNXDomainCut) as soon as the writer
+   of that node OR OF ANY ANCESTOR on the way up admits it — provided the terminal proof itself, the
+   response of the node where the denial was learnt, does not have its CD bit set: the stores refuse such
+   a proof whoever hands it in (nxDomainCutCache.record, denialProofCache.extract: msg.CheckingDisabled).
+   [above]: some writer above already admits what it relays.
+   (Bound: the chase depth maxCnameChaseDepth, not modelled; trees of the correspondence are at most 4 deep.) *)
+Fixpoint tree_records (pol : option policy) (ctx : dctx) (above : bool) (t : rtree) : list bool :=
+  match t with
+  | RNode cd remote opts res_cd ch =>
+      let client := addr_from_slice_unmap remote in
+      let raw := match opts with Some l => has_ecs l | None => false end in
+      let fw := forwarded pol client opts in
+      let msg_ecs := has_ecs fw in
+      let cs := match request_scope pol client (Some fw) with Some _ => true | None => false end in
+      let '(ctx', p) := node_perm ctx cd msg_ecs cs res_cd raw in
+      let here := above || dp_create p in
+      (negb res_cd && here) :: flat_map (tree_records pol ctx' here) ch
+  end.
+
 (* ------------------------------------------------------------------ the byte ladder of a wire-born request *)
 (* Cache.ServeDNS runs Cache.serveWire first when the request is still undecoded.  Its entry gate
    `!req.RD() || req.HasECS()` declines — whatever the [ecs] policy is, also with none — and so does
